@@ -62,6 +62,7 @@ type simAdapter struct {
 	inc     int
 	// counters
 	FiredEnq, FiredDeq, FiredAck, FiredStall, Dups, Delays int
+	NoAckIDs int
 	injected int // undecodable entries put into the backend by opInject
 	FiredAckLost int
 	Others int // notifications with an action other than "enqueued"
@@ -200,9 +201,15 @@ func (a *simAdapter) DequeueWithAckId() (any, bool, string) {
 	}
 	e := a.pending[i]
 	a.pending = removeAt(a.pending, i)
-	a.ackSeq++
-	id := fmt.Sprintf("ack-%d", a.ackSeq)
-	a.unacked = append(a.unacked, adUnacked{ID: id, E: e, Inc: a.inc})
+	id := ""
+	if a.faultsOn && a.cfg.FNoAckID > 0 && simrt.Chance(a.cfg.FNoAckID) {
+		// a delivery the backend wants no acknowledgement for: it is handed out for good
+		a.NoAckIDs++
+	} else {
+		a.ackSeq++
+		id = fmt.Sprintf("ack-%d", a.ackSeq)
+		a.unacked = append(a.unacked, adUnacked{ID: id, E: e, Inc: a.inc})
+	}
 	a.log("deq", e.Sub, id, true)
 	if a.cfg.Kind >= qkDist {
 		a.notifyOther("dequeued")
